@@ -130,8 +130,8 @@ func (r *run) genOp(g *hlib.Rand, id int) Op {
 	case x >= 58 && x < 63 && len(r.sent) > 0: // add fee (any state of the packet, sometimes a packet that does not exist)
 		sp := pick(r.sent)
 		op := Op{ID: id, K: "F", C: sp.src, U: g.Intn(s.NUsers), Ref: sp.opID, Amt: fmt.Sprint(1 + g.Intn(9))}
-		if g.Chance(1, 8) {
-			op.Ref = -1
+		if g.Chance(1, 6) {
+			op.Ref = -1 - 4*g.Intn(2)
 		}
 		if g.Chance(1, 10) {
 			op.Amt = "100000000000"
